@@ -867,12 +867,19 @@ class World:
 
     def drain(self):
         """Faults stop; every wait has a scheduled clear (longest chain: bounded by nesting depth x delays)."""
-        idle, last = 0, self.seq
+        # The run is over when the model has been quiescent - and the loop had nothing left to run at the end of
+        # the chunk (a chunk boundary may fall into the middle of a cascade of call_soon callbacks: then some
+        # dispatcher is about to continue and "everything completed" would be judged too early) - for 3 s.
+        idle, last, settled = 0, self.seq, 0
         for _ in range(4000):
             self.sim.run_quiet(0.5)
             self.check_stuck()
-            if self.quiescent():
-                break
+            if self.quiescent() and not self.loop._ready:
+                settled += 1
+                if settled >= 6:
+                    break
+                continue
+            settled = 0
             if self.seq == last:
                 # nothing observable happened: the longest single timer of the workload is 2.5 s, so after
                 # 10 s without any model event nothing is going to happen any more
@@ -881,7 +888,6 @@ class World:
                     break
             else:
                 idle, last = 0, self.seq
-        self.sim.run_quiet(3.0)
         self.check_stuck()
 
     def final_checks(self):
@@ -897,9 +903,10 @@ class World:
                 if inst.waits or missing:
                     self.ctx.violation("never_completes", inst.name, "%r (no callback) did not finish its handlers: "
                                        "waits %r missing %r" % (inst, sorted(inst.waits.values()), missing))
-        if self.quiescent() and self.ev._queue_tasks:
+        pending = [t for t in self.ev._queue_tasks if not t.done()]    # (a finished task is removed by its done
+        if self.quiescent() and pending:                                 # callback one loop iteration later)
             self.ctx.violation("stuck", "queue task leaked", "%d queue dispatcher tasks still pending at quiescence"
-                               % len(self.ev._queue_tasks))
+                               % len(pending))
         self.log("end", len(self.all), self.skipped_posts)
 
 
